@@ -183,6 +183,43 @@ pub fn var_f(ty: &str, input: f64, msgs: &[(usize, f64)]) -> String {
     }
 }
 
+fn fs(v: &[f64]) -> String {
+    if v.is_empty() { ".".to_string() } else { v.iter().map(|&x| hx(x)).collect::<Vec<_>>().join(",") }
+}
+
+/// a SEQUENCE of layered updates on ONE arithmetic object; returns one "<msgs> <vars>" per call
+pub fn layer_f_seq(ty: &str, calls: &[(Vec<(usize, f64)>, Vec<f64>)]) -> String {
+    let ty2 = ty.to_string();
+    let calls = calls.to_vec();
+    match guarded(move || {
+        let mut outs: Vec<String> = Vec::new();
+        if ty2.ends_with("f64") {
+            with_f64!(ty2.as_str(), a => {
+                for (msgs, vars) in &calls {
+                    let mut m: Vec<SentMessage<f64>> = msgs.iter().map(|&(d, v)| SentMessage { dest: d, value: v }).collect();
+                    let mut vs = vars.clone();
+                    a.update_check_messages_and_vars(&mut m, &mut vs);
+                    outs.push(format!("{} {}", pairs_f(&m.iter().map(|s| (s.dest, s.value)).collect::<Vec<_>>()), fs(&vs)));
+                }
+            });
+        } else {
+            with_f32!(ty2.as_str(), a => {
+                for (msgs, vars) in &calls {
+                    let mut m: Vec<SentMessage<f32>> = msgs.iter().map(|&(d, v)| SentMessage { dest: d, value: v as f32 }).collect();
+                    let mut vs: Vec<f32> = vars.iter().map(|&x| x as f32).collect();
+                    a.update_check_messages_and_vars(&mut m, &mut vs);
+                    outs.push(format!("{} {}", pairs_f(&m.iter().map(|s| (s.dest, s.value as f64)).collect::<Vec<_>>()),
+                        fs(&vs.iter().map(|&x| x as f64).collect::<Vec<_>>())));
+                }
+            });
+        }
+        outs.join(" ")
+    }) {
+        Ok(o) => o,
+        Err(_) => "panic".to_string(),
+    }
+}
+
 fn rand_f(rng: &mut Rng, ty: &str, style: usize) -> f64 {
     let range = if ty.ends_with("f64") { 30.0 } else { 14.0 };
     let mag = match style {
@@ -359,6 +396,26 @@ pub fn run_c05(ctx: &mut Ctx, _replay: Option<&[String]>) {
         let m: Vec<(usize, f64)> = (0..deg).map(|i| (i * 3 + 1, rand_f(&mut rng, ty, style))).collect();
         let input = rand_f(&mut rng, ty, style);
         ctx.emit(&format!("c05 vf {} {} {}", ty, hx(input), pairs_f(&m)), &var_f(ty, input, &m), deg >= 1, &["float-variable-rule", ty]);
+    }
+    // float layered primitive: sequences of 2-5 updates on ONE arithmetic object with varying check degrees
+    // (a high-degree check followed by a low-degree one is what exposes stale scratch buffers)
+    for k in 0..ctx.scale(6000, 100_000) {
+        let ty = F_TYPES[k % 8];
+        let ncalls = rng.range(2, 5);
+        let mut calls: Vec<(Vec<(usize, f64)>, Vec<f64>)> = Vec::new();
+        for c in 0..ncalls {
+            let deg = if c % 2 == 0 { rng.range(4, 9) } else { rng.range(2, 3) };
+            let nvars = deg + rng.range(1, 4);
+            let mut dests: Vec<usize> = (0..nvars).collect();
+            for i in (1..dests.len()).rev() { dests.swap(i, rng.below(i + 1)); }
+            dests.truncate(deg);
+            let style = rng.below(2);
+            let msgs: Vec<(usize, f64)> = dests.iter().map(|&d| (d, 0.5 * rand_f(&mut rng, ty, style))).collect();
+            let vars: Vec<f64> = (0..nvars).map(|_| rand_f(&mut rng, ty, style)).collect();
+            calls.push((msgs, vars));
+        }
+        let input: Vec<String> = calls.iter().map(|(m, v)| format!("{} {}", pairs_f(m), fs(v))).collect();
+        ctx.emit(&format!("c05 lf {} {}", ty, input.join(" ")), &layer_f_seq(ty, &calls), true, &["float-layered-sequence", ty]);
     }
 }
 
